@@ -6,3 +6,7 @@ def run(ctx):
     engcommon.run_engine_property(ctx, 'C02', scan_accept=700, oracles=[('converge', lambda h, st, b, prev: ec.oracle_c02(h, st, b, *prev))], faults=0.15, feat=dict(dyndep=0.25))
     # the history-level model (coq/Engine/HistDefs.v, theorems of Properties_C02hist.v) run against the real engine
     histmodel.hook(ctx, 'C02')
+    # the real binary across an automatic log recompaction (NinjaMain::IsPathDead is not part of the engine harness)
+    import os, vlib, realbin
+    for name, w in realbin.recompaction_keeps_live_entries(os.path.join(vlib.build_impl('plain'), 'ninja')):
+        ctx.violation(name, 'real binary: tools/realbin.py recompaction_keeps_live_entries\n', w)
